@@ -55,6 +55,12 @@ ASSUMPTIONS = [
 KF = {}
 SHRINK_FREE_DICTS = ("files", "doc")
 
+# The export target sits five levels below the scratch root so that every '../' escape the value
+# universe can produce still lands inside the snapshotted scratch root.
+TARGET_PARENT = "out/t/u/v"
+# Placeholder for an absolute path *inside* the scratch root (substituted by the executor): lets the
+# absolute-path escape be observed without ever writing outside the scratch directory.
+ABS_PLACEHOLDER = "$ROOT/abs_evil"
 SP_FILE = "signac_statepoint.json"
 DOC_FILE = "signac_job_document.json"
 EXT = {"dir": "", "zip": ".zip", "tar": ".tar", "tar.gz": ".tar.gz", "tar.bz2": ".tar.bz2", "tar.xz": ".tar.xz"}
@@ -68,6 +74,7 @@ FAMILIES = [
     [True, "True"],
     ["x/y", "x", "a b"],
     ["../up", 1, "../../evil"],
+    [ABS_PLACEHOLDER, 1, "x"],
     ["", 1, "a.b"],
     [None, 1, "1"],
     ["1", "True", "x", "10", "x_1"],
@@ -360,6 +367,51 @@ def _exc(e):
     return f"{type(e).__name__}: {_short(str(e), 160)}"
 
 
+def _subst(v, root):
+    if isinstance(v, dict):
+        return {k: _subst(x, root) for k, x in v.items()}
+    if isinstance(v, str) and v.startswith("$ROOT/"):
+        return root + v[len("$ROOT"):]
+    return v
+
+
+_AUTO_RE = re.compile(r"\{\{auto(:[^}]*)?\}\}")
+
+
+def could_leave_scratch(pspec, own, jobs, root):
+    """True if the path spec could make signac write to an absolute path outside the scratch root
+    (such a case is never executed; the absolute-path class is covered by ABS_PLACEHOLDER)."""
+
+    def bad(p):
+        return p.startswith("/") and not p.startswith(root + "/")
+
+    if own is not None and any(bad(p) for p in own.values()):
+        return True
+    if pspec["kind"] != "format":
+        return False
+    for auto in ("", "K/v"):
+        spec = _AUTO_RE.sub(auto, pspec["spec"])
+        try:
+            parsed = list(_FMT.parse(spec))
+        except ValueError:
+            return False  # signac raises on the same spec
+        for j in jobs:
+            out = []
+            for lit, field, fspec, conv in parsed:
+                out.append(lit)
+                if field is None:
+                    continue
+                if field == "job.id":
+                    out.append(j["id"])
+                    continue
+                f = field[len("job.sp."):] if field.startswith("job.sp.") else field
+                ok, v = lookup(j["sp"], f)
+                out.append(str(v) if ok and not isinstance(v, (dict, list)) else "X")
+            if bad("".join(out)):
+                return True
+    return False
+
+
 def _dedupe_jobs(jobs):
     seen, out = set(), []
     for j in jobs:
@@ -433,12 +485,12 @@ def run_roundtrip(case, ctx):
     old_tmp = tempfile.tempdir
     try:
         os.makedirs(os.path.join(R, "tmp"))
-        os.makedirs(os.path.join(R, "out", "t"))
+        os.makedirs(os.path.join(R, TARGET_PARENT))
         tempfile.tempdir = os.path.join(R, "tmp")
         src = signac.init_project(os.path.join(R, "src"))
         jobs = []
         for cj in cjobs:
-            sp = json.loads(json.dumps(cj.get("sp", {})))
+            sp = _subst(json.loads(json.dumps(cj.get("sp", {}))), R)
             job = src.open_job(sp)
             job.init()
             if cj.get("doc"):
@@ -470,7 +522,7 @@ def run_roundtrip(case, ctx):
         else:
             dst = signac.Project(os.path.join(R, "dst"))
 
-        target_rel = "out/t/data" + EXT[tkind]
+        target_rel = TARGET_PARENT + "/data" + EXT[tkind]
         target = os.path.join(R, target_rel)
 
         # -- own path map ---------------------------------------------------
@@ -504,6 +556,10 @@ def run_roundtrip(case, ctx):
         # "must succeed" is only demanded for tidy maps: unique, prefix-free, inside the target and
         # spelled in normal form (no '.', '..' or empty components)
         own_valid = own is not None and not (own_dups or own_leaf or own_escape) and all(tidy(p) for p in own.values())
+
+        if could_leave_scratch(pspec, own, jobs, R):
+            ctx.skip("path spec could write to an absolute path outside the scratch root")
+            return {"mismatches": [], "classes": [], "nontrivial": False}
 
         S0 = fsutil.snapshot(R)
 
@@ -939,7 +995,7 @@ def _format_specs(draw, keys):
     f2 = "{job.sp.%s}" % k2 if k2 == "job" else "{%s}" % k2
     templates = [
         f1, k1 + "_" + f1, k1 + "/" + f1, f1 + "/" + f2, f1 + "_" + f2, f1 + "/{{auto}}", "{{auto}}", "{{auto:_}}",
-        "pre/{{auto:_}}", "{job.id}", f1 + "/{job.id}", "{{auto}}/{job.id}", "const", k1 + "/" + f1 + "/{{auto:-}}",
+        "pre/{{auto:_}}", "{job.id}", f1 + "/{job.id}", "x/{{auto}}/{job.id}", "{job.id}/{{auto}}", "const", k1 + "/" + f1 + "/{{auto:-}}",
         "{missing}", f1 + "/./" + f2,
     ]
     return draw(st.sampled_from(templates))
@@ -954,8 +1010,14 @@ _files = st.dictionaries(st.sampled_from(FILE_POOL), gen.blobs, max_size=3).map(
 _docs = st.one_of(st.just({}), gen.documents)
 
 
+TYPED_FAMILIES = [[1, 10, 100], [1, 2, 3, -1], ["1", "True", "x", "10", "x_1"], [1.0, 2.5, 10.5, 0.5], [True, False]]
+
+
 @st.composite
 def roundtrip_cases(draw):
+    schema = draw(_schemas)
+    # a derived schema string needs a layout that typed fields can describe: steer most of those cases there
+    friendly = schema == "string" and draw(st.integers(0, 3)) > 0
     keys = draw(st.lists(st.sampled_from(KEYS[:5] + KEYS[:5] + ["job"]), min_size=1, max_size=3, unique=True))
     pools = {}
     for k in keys:
@@ -964,8 +1026,12 @@ def roundtrip_cases(draw):
             st.lists(st.integers(0, len(VALUES) - 1), min_size=1, max_size=4, unique=True).map(lambda ix: [VALUES[i] for i in ix]),
         ))
         pools[k] = _fix_pool(list(pool), draw(st.booleans()))
+        if friendly:
+            pools[k] = draw(st.sampled_from(TYPED_FAMILIES))
     n = draw(st.one_of(st.integers(0, 5), st.integers(1, 4), st.integers(2, 5), st.integers(6, 12)))
     hetero = draw(st.sampled_from([False, False, True]))
+    if friendly:
+        n, hetero = draw(st.integers(2, 6)), False
     jobs = []
     for _ in range(n):
         sp = {}
@@ -977,7 +1043,9 @@ def roundtrip_cases(draw):
         jobs.append({"sp": sp, "doc": draw(_docs), "files": draw(_files)})
     jobs = _dedupe_jobs(jobs)
     pk = draw(st.sampled_from(["none", "none", "none", "false", "format", "format", "format", "callable", "callable"]))
-    if pk == "format":
+    if friendly:
+        path = draw(st.sampled_from([{"kind": "none"}, {"kind": "none"}, {"kind": "format", "spec": "{{auto}}"}]))
+    elif pk == "format":
         path = {"kind": "format", "spec": draw(_format_specs(keys))}
     elif pk == "callable":
         path = {"kind": "callable", "which": draw(st.sampled_from(sorted(CALLABLES)))}
@@ -985,7 +1053,7 @@ def roundtrip_cases(draw):
         path = {"kind": pk}
     return {
         "kind": "roundtrip", "jobs": jobs, "target": draw(_targets), "path": path,
-        "schema": {"kind": draw(_schemas)}, "dest": draw(_dests),
+        "schema": {"kind": schema}, "dest": "empty" if friendly else draw(_dests),
     }
 
 
@@ -1042,6 +1110,8 @@ def representatives():
         out.append(_rt(a(1, 2), t, dest="self"))
         out.append(_rt(a("../up", 1), t, fmt("{a}")))
         out.append(_rt(a("../../evil", 1), t))
+        out.append(_rt(a(ABS_PLACEHOLDER, 1), t))
+        out.append(_rt(a(ABS_PLACEHOLDER, 1), t, fmt("{a}")))
     out.append(_rt([{"a": 1}, {"a": 2, "b": 3}, {"b": 5}], "tar.gz", {"kind": "false"}, files=F))
     out.append(_rt([{"a": 1}, {"a": 1, "b": 2}, {"a": 2, "b": 3}], "dir"))
     out.append(_rt([{"a": 1}, {"a": 2, "b": 3}], "dir"))
@@ -1099,7 +1169,7 @@ def run(ctx):
     ctx.notes["enumeration"] = "key a, 2/3-subsets of 13 values x targets x {None, False}" + (
         "" if ctx.tier == "thorough" else " (quick: dir/zip/tar, seeded 1/6 slice)"
     )
-    n_rt = 1500 if ctx.tier == "quick" else 6000
-    n_sc = 350 if ctx.tier == "quick" else 1500
+    n_rt = 1100 if ctx.tier == "quick" else 4500
+    n_sc = 300 if ctx.tier == "quick" else 1200
+    drive(ctx, schema_cases(), n_sc, ctx.apply)  # cheap ones first: a budget stop only trims round trips
     drive(ctx, roundtrip_cases(), n_rt, ctx.apply)
-    drive(ctx, schema_cases(), n_sc, ctx.apply)
